@@ -34,7 +34,9 @@ def base_cfg(rng, prof):
             cfg['zones'].append(['vec', 0x460, 0x47f])           # nested in rom
         if rng.random() < prof.get('p_global', 0.3):
             gs = rng.choice([0, 0x10, 0x100])
-            cfg['zones'].insert(rng.randrange(len(cfg['zones']) + 1), ['GLOBAL', gs, rng.choice([0x0fff, 0x7fff])])
+            # now and then a GLOBAL that does not contain all predefined zones (0x3ff, 0x43f): rejected wherever in the list it stands
+            ge = rng.choice([0x0fff, 0x7fff, 0x0fff, 0x7fff, 0x7fff, 0x0fff, 0x3ff, 0x43f])
+            cfg['zones'].insert(rng.randrange(len(cfg['zones']) + 1), ['GLOBAL', gs, ge])
             cfg['origin'] = max(cfg['origin'], gs)
     if rng.random() < 0.4:
         cfg['consts'] = [['PRE_A', rng.choice([1, 7, 300])], ['PRE_B', rng.choice([2, 64])]]
